@@ -300,6 +300,208 @@ def execute(tree, arch: S.Arch, wl: S.WL, directions=None) -> ExecResult:
     return res
 
 
+def sink_storage(tree, wl: S.WL):
+    """Effective positions of storage nodes for occupancy.
+
+    A storage node that is not the outermost holder of its tensor and is directly
+    followed by loops over rank variables of its own tensor *streams* its tile: the
+    values needed by one iteration of those loops are used in that iteration only
+    (live from first to last use), so the node behaves as if written below them.
+    Sinking stops at the first loop that is irrelevant to the tensor, at the next
+    storage node of the same Einsum, at a split and at the compute.  The order of
+    nodes in the LoopTree is significant (only a node directly above the loops
+    streams).  Returns a new tree.
+    """
+    tens = {e[0]: {t for t, _, _ in wl.tensors_of(e[0])} for e in wl.einsums}
+    ranks = {}
+    for e in wl.einsums:
+        for t, rk, _ in wl.tensors_of(e[0]):
+            ranks[t] = set(rk)
+
+    def owner(tensor, hint):
+        if hint is not None:
+            return hint
+        own = [e for e, ts in tens.items() if tensor in ts]
+        return own[0] if len(own) == 1 else None
+
+    def rec(nodes, held, einsum):
+        n = len(nodes)
+        target = list(range(n))
+        h = set(held)
+        for i, nd in enumerate(nodes):
+            if nd[0] != "S":
+                continue
+            t = nd[2]
+            if t not in h:
+                h.add(t)
+                continue  # backing holder: never streams
+            e = owner(t, einsum)
+            if e is None:
+                continue
+            j, last = i + 1, i
+            while j < n:
+                m = nodes[j]
+                if m[0] == "S":
+                    if m[2] in tens[e]:
+                        break
+                    j += 1
+                    continue
+                if m[0] == "T" and m[1] in ranks[t]:
+                    last = j
+                    j += 1
+                    continue
+                break
+            target[i] = last
+        out = []
+        h = set(held)
+        for p, nd in enumerate(nodes):
+            if nd[0] == "S":
+                h.add(nd[2])
+            if target[p] == p:
+                if nd[0] == "SEQ":
+                    out.append(("SEQ", [rec(b, h, _einsum_of(b)) for b in nd[1]]))
+                else:
+                    out.append(nd)
+            for q in range(p):
+                if target[q] == p and target[q] != q:
+                    out.append(nodes[q])
+        return out
+
+    return rec(list(tree), set(), _einsum_of(tree) if _n_computes(tree) == 1 else None)
+
+
+def peak_occupancy(tree, arch: S.Arch, wl: S.WL, persistent=()):
+    """Execution-time peak occupancy (bits) per memory of a possibly fused LoopTree.
+
+    Liveness rules (property C06 / the LoopTree documentation):
+      * a storage node's tile is allocated when control reaches it and freed when
+        the enclosing loop iteration (or branch) ends;
+      * storage nodes above a sequential split live across all its branches;
+      * the backing storage node of a tensor shared between branches is written at
+        the head of every branch that uses it: it is ONE allocation, live from the
+        first to the last branch that uses the tensor;
+      * persistent tensors' backing allocations are multiplied by the instance count
+        (workload.n_instances * einsum.n_instances).
+    Tolls never occupy space.
+    """
+    tree = sink_storage(tree, wl)
+    mems = {m.name: m for m in arch.holders}
+    is_toll = {m.name: m.kind == "Toll" for m in arch.holders}
+    bounds = dict(wl.bounds)
+    tinfo = {}
+    t2einsum = {}
+    for e in wl.einsums:
+        for t in einsum_tensors(wl, e[0]):
+            tinfo.setdefault(t.name, t)
+            t2einsum.setdefault(t.name, e[0])
+    live = {m.name: F(0) for m in arch.holders}
+    peak = {m.name: F(0) for m in arch.holders}
+    eni = dict(wl.einsum_n_instances)
+
+    def bits(level, tensor, ranges, einsum, backing):
+        t = tinfo[tensor]
+        n = 1
+        for rv in t.ranks:
+            n *= ranges[rv][1]
+        e = einsum or t2einsum[tensor]
+        b = bits_per_value(mems[level], wl, tensor, einsum_tensors(wl, e), e) * n
+        if backing and tensor in persistent:
+            b *= F(wl.n_instances) * F(eni.get(e, 1))
+        return b
+
+    def alloc(level, b):
+        live[level] += b
+        if live[level] > peak[level]:
+            peak[level] = live[level]
+
+    def head(branch):
+        out = []
+        for n in branch:
+            if n[0] != "S":
+                break
+            out.append((n[1], n[2]))
+        return out
+
+    tens_of = {e[0]: {t for t, _, _ in wl.tensors_of(e[0])} for e in wl.einsums}
+
+    def run(nodes, i, ranges, held, suppressed, einsum):
+        """held: tensors that already have a (non-toll) holder above."""
+        if i == len(nodes):
+            return
+        n = nodes[i]
+        if n[0] == "S":
+            # storage nodes directly above a split (nothing but storage nodes between
+            # them and the split) are scoped like the branch heads: see SEQ below
+            j = i
+            while j < len(nodes) and nodes[j][0] == "S":
+                j += 1
+            if j < len(nodes) and nodes[j][0] == "SEQ":
+                pre = [(m[1], m[2]) for m in nodes[i:j] if not is_toll[m[1]]]
+                run_seq(nodes[j][1], ranges, held, pre)
+                return
+            level, tensor = n[1], n[2]
+            if is_toll[level] or (level, tensor) in suppressed:
+                run(nodes, i + 1, ranges, held | ({tensor} if not is_toll[level] else set()),
+                    suppressed - {(level, tensor)}, einsum)
+                return
+            b = bits(level, tensor, ranges, einsum or _einsum_of(nodes[i:]), tensor not in held)
+            alloc(level, b)
+            run(nodes, i + 1, ranges, held | {tensor}, suppressed, einsum)
+            live[level] -= b
+            return
+        if n[0] == "T":
+            var, ts = n[1], n[2]
+            lo, size = ranges[var]
+            for o in range(lo, lo + size, ts):
+                r2 = dict(ranges)
+                r2[var] = (o, min(ts, lo + size - o))
+                run(nodes, i + 1, r2, held, suppressed, einsum)
+            return
+        if n[0] == "SEQ":
+            run_seq(n[1], ranges, held, [])
+            return
+        if n[0] == "C":
+            return
+        raise ValueError(n)
+
+    def run_seq(branches, ranges, held, pre):
+        """Allocations at the head of a split -- storage nodes directly above it (`pre`)
+        and storage nodes at the head of several branches (the backing node of a
+        shared tensor is repeated in every branch that uses it) -- are live from the
+        first to the last branch that uses their tensor."""
+        heads = [head(b) for b in branches]
+        einsums = [_einsum_of(b) for b in branches]
+        users = {}
+        for k in pre:
+            users[k] = [j for j, e in enumerate(einsums) if k[1] in tens_of[e]]
+        count = {}
+        for j, h in enumerate(heads):
+            for k in set(h):
+                if k in users or is_toll[k[0]] or k[1] in held:
+                    continue
+                count.setdefault(k, []).append(j)
+        for k, js in count.items():
+            if len(js) >= 2:
+                users[k] = js
+        users = {k: js for k, js in users.items() if js}
+        sizes = {}
+        held_pre = held | {k[1] for k in pre}
+        for j, br in enumerate(branches):
+            for k, js in users.items():
+                if js[0] == j:
+                    sizes[k] = bits(k[0], k[1], ranges, einsums[j], k[1] not in held)
+                    alloc(k[0], sizes[k])
+            live_now = {k for k, js in users.items() if js[0] <= j <= js[-1]}
+            run(br, 0, ranges, held_pre | {k[1] for k in live_now}, live_now & set(heads[j]), einsums[j])
+            for k, js in users.items():
+                if js[-1] == j:
+                    live[k[0]] -= sizes[k]
+
+    run(list(tree), 0, {v: (0, b) for v, b in bounds.items()}, frozenset(), frozenset(),
+        _einsum_of(tree) if _n_computes(tree) == 1 else None)
+    return peak
+
+
 def _dir(directions, toll, tensor):
     if not directions:
         return "up_and_down"
